@@ -123,6 +123,30 @@ class Twin:
                 b0 = self.marksB[kcut - 1][1] if kcut > 0 else self.startB
                 b1 = len(c.events)
                 self._align(c, c.events[a0:a1], c.events[b0:b1])
+                fe = getattr(self.T, "fact_exp", {}).get(attr)
+                if fe:
+                    # multiplicative relation  value_B * f == names_A  (f = T.fact_base ** fe): run B continues with fresh names constrained
+                    # by that relation, so that no reciprocal of the factor ever enters an expression
+                    f = z3.RealVal(1)
+                    for _ in range(fe):
+                        f = f * zexpr(self.T.fact_base)
+                    vB = np.asarray(value, dtype=object)
+                    nA = np.asarray(self.names[key], dtype=object)
+                    if vB.shape != nA.shape:
+                        self.obligs.append(Obligation("%s: shape of %s" % (self.T.name, key), [], z3.BoolVal(False)))
+                        return value
+                    namedB = name_array("cutB%s_%d" % (attr, n), value, record=None)
+                    fb, fa, fn = vB.reshape(-1), nA.reshape(-1), np.asarray(namedB, dtype=object).reshape(-1)
+                    step = 3
+                    for i in range(0, len(fb), step):
+                        goal = z3.And(*[zexpr(SR(x)) * f == zexpr(SR(y)) for x, y in zip(fb[i:i + step], fa[i:i + step])])
+                        if z3.is_true(z3.simplify(goal)):
+                            continue
+                        self.obligs.append(Obligation("%s: %s[%d..] * factor^%d == run A" % (self.T.name, key, i, fe), self._facts_for(c, goal), goal, meta={"cut": key}))
+                    for x, y, vv in zip(fn, fa, fb):
+                        if isinstance(vv, SR) and vv.c is None:
+                            self.align_facts.append(zexpr(SR(x)) * f == zexpr(SR(y)))
+                    return namedB
                 # (2) obligation value_B == T(names_A)
                 expected = self.apply(attr, kind, self.names[key], sc)
                 vB = np.asarray(value, dtype=object)
